@@ -1,7 +1,16 @@
 import json,sys
 props={json.loads(l)['id']:json.loads(l) for l in open('/verif/properties.jsonl')}
+def earlier(pid):
+    import glob,os
+    out=[]
+    for d in sorted(glob.glob(f'/verif/seeded/{pid}*')):
+        try: out.append("- "+json.load(open(d+'/meta.json'))['summary'][:260].replace("\n"," ")+" ...")
+        except Exception: pass
+    return out
 def prompt(pid, variant=""):
     p=props[pid]
+    prev=earlier(pid) if variant else []
+    avoid=("\nChanges of the following kinds were already produced by others for this property; yours must be of a DIFFERENT kind (another site in the code, another mechanism, another part of the property statement):\n"+"\n".join(prev)+"\n") if prev else ""
     wt=f"/tmp/seed_{pid}{variant}"
     return f"""You are helping to evaluate a verification tool for the Python project Rot127/rzil-compiler (a compiler from QEMU Hexagon C-like 'shortcode' instruction semantics to Rizin RzIL C code). The repository is at /repo (git). DO NOT modify anything in /repo itself and never commit there. Do not read anything under /verif.
 
@@ -12,6 +21,7 @@ PROPERTY {pid}: {p['title']}
 (Quantified over: {p['quantifier']['text']})
 Files the property is anchored in: {', '.join(p['anchors']['files'])}
 
+{avoid}
 Work in your own scratch git worktree:
   git -C /repo worktree add --detach {wt} HEAD
 and edit only files under {wt}. Python resolves the package from /repo by default, so ALWAYS run things with the worktree first on the path and from inside the worktree (the code locates its Resources/ directory via `git rev-parse --show-toplevel` of the current directory):
